@@ -606,3 +606,150 @@ g6.fallback = ("From Coq Require Import List Bool Arith.\nFrom XV Require Import
                "Definition gen_interp_1d_conservative (phi theta_1 theta_2 theta_hat_1 theta_hat_2 output : list A) : list A := output.\n"
                "Definition gen_interp_1d_linear (phi theta target_theta_levels : list A) (mask_edges bypass_checks : bool) (output : list A) : list A := output.\n"
                "End G6.")
+
+
+# ---------------------------------------------------------------------------
+# G3: the signature regular expressions of grid_ufunc.py as Base.Regex terms
+
+
+def eval_str(node, env):
+    """Evaluate a string constant / f-string over earlier constants."""
+    if isinstance(node, ast.Constant) and isinstance(node.value, str):
+        return node.value
+    if isinstance(node, ast.JoinedStr):
+        out = ""
+        for v in node.values:
+            if isinstance(v, ast.Constant):
+                out += v.value
+            elif isinstance(v, ast.FormattedValue) and isinstance(v.value, ast.Name) and v.conversion == -1 \
+                    and v.format_spec is None:
+                out += env[v.value.id]
+            else:
+                raise Shape("unsupported f-string part")
+        return out
+    raise Shape("not a string constant")
+
+
+class ReParser:
+    """The subset of Python's `re` syntax the seven patterns use."""
+
+    def __init__(self, text):
+        self.t = text
+        self.i = 0
+        self.start = False
+        self.end = None
+
+    def peek(self):
+        return self.t[self.i] if self.i < len(self.t) else None
+
+    def alt(self):
+        parts = [self.cat()]
+        while self.peek() == "|":
+            self.i += 1
+            parts.append(self.cat())
+        out = parts[-1]
+        for p in reversed(parts[:-1]):
+            out = f"(Alt {p} {out})"
+        return out
+
+    def cat(self):
+        items = []
+        while self.peek() is not None and self.peek() not in "|)":
+            items.append(self.rep())
+        items = [x for x in items if x is not None]
+        if not items:
+            return "Eps"
+        out = items[-1]
+        for p in reversed(items[:-1]):
+            out = f"(Cat {p} {out})"
+        return out
+
+    def rep(self):
+        a = self.atom()
+        c = self.peek()
+        if c in ("*", "+", "?"):
+            if a is None:
+                raise Shape("quantifier on an anchor")
+            self.i += 1
+            return {"*": f"(Star {a})", "+": f"(Plus {a})", "?": f"(Opt {a})"}[c]
+        return a
+
+    def atom(self):
+        c = self.peek()
+        if c == "(":
+            if self.t[self.i:self.i + 3] != "(?:":
+                raise Shape("capturing group")
+            self.i += 3
+            r = self.alt()
+            if self.peek() != ")":
+                raise Shape("unbalanced group")
+            self.i += 1
+            return r
+        if c == "\\":
+            d = self.t[self.i + 1]
+            self.i += 2
+            if d == "w":
+                return "(Chr is_word)"
+            if d in "()":
+                return f'(Chr (Ascii.eqb "{d}"))'
+            if d == "Z":
+                if self.i != len(self.t):
+                    raise Shape("\\Z not at the end")
+                self.end = "Z"
+                return None
+            raise Shape(f"escape \\{d}")
+        if c == "^":
+            if self.i != 0:
+                raise Shape("^ not at the start")
+            self.i += 1
+            self.start = True
+            return None
+        if c == "$":
+            if self.i != len(self.t) - 1:
+                raise Shape("$ not at the end")
+            self.i += 1
+            self.end = "$"
+            return "(Opt (Chr is_newline))"
+        if c in ".[]{}":
+            raise Shape(f"unsupported metacharacter {c}")
+        self.i += 1
+        if not (32 < ord(c) < 127) or c == '"':
+            raise Shape("unsupported literal")
+        return f'(Chr (Ascii.eqb "{c}"))'
+
+    def parse(self):
+        r = self.alt()
+        if self.i != len(self.t):
+            raise Shape("trailing text in pattern")
+        return r
+
+
+@extractor("G3")
+def g3():
+    tree = parse("grid_ufunc.py")
+    names = ["_AXIS_NAME", "_AXIS_POSITION", "_AXIS_NAME_POSITION_PAIR", "_AXIS_NAME_POSITION_PAIR_LIST",
+             "_ARGUMENT", "_ARGUMENT_LIST", "_SIGNATURE"]
+    env = {}
+    for n in tree.body:
+        if isinstance(n, ast.Assign) and len(n.targets) == 1 and isinstance(n.targets[0], ast.Name) \
+                and n.targets[0].id in names:
+            env[n.targets[0].id] = eval_str(n.value, env)
+    if set(env) != set(names):
+        raise Shape("signature pattern constants missing")
+    out = ["From Coq Require Import List Bool Ascii String.", "From XV Require Import Base.Regex Model.Signature.",
+           "Open Scope char_scope."]
+    for n in names:
+        p = ReParser(env[n])
+        term = p.parse()
+        out.append(f"Definition gen{n} : re := {term}.")
+        if n == "_SIGNATURE":
+            out.append(f"Definition gen_signature_start_anchor : bool := {'true' if p.start else 'false'}.")
+            out.append(f"Definition gen_signature_end_anchor_Z : bool := {'true' if p.end == 'Z' else 'false'}.")
+    return "\n".join(out)
+
+
+g3.fallback = ("From Coq Require Import List Bool Ascii String.\nFrom XV Require Import Base.Regex Model.Signature.\n"
+               + "\n".join(f"Definition gen{n} : re := Emp." for n in
+                           ["_AXIS_NAME", "_AXIS_POSITION", "_AXIS_NAME_POSITION_PAIR",
+                            "_AXIS_NAME_POSITION_PAIR_LIST", "_ARGUMENT", "_ARGUMENT_LIST", "_SIGNATURE"])
+               + "\nDefinition gen_signature_start_anchor : bool := false.\nDefinition gen_signature_end_anchor_Z : bool := false.")
